@@ -46,13 +46,13 @@ Proof.
 Qed.
 
 Lemma idx_search_window c keys ix q :
-  idx_ok c -> float_ok_all c -> data_ok c keys -> build c keys = Ok ix -> zlen (ix_segments ix) < 2 ^ 32 ->
+  idx_ok c -> float_ok_valid c -> data_ok c keys -> build c keys = Ok ix -> zlen (ix_segments ix) < 2 ^ 32 ->
   q < sentinel c ->
   exists lo hi, pg_search (idx_ops c) ix q = Ok (lo, hi) /\
     0 <= lo /\ lo <= lb keys q /\ lb keys q <= hi /\ hi <= zlen keys /\ (In q keys -> lb keys q < hi).
 Proof.
   intros Hc Hf Hd Hb Hs Hq.
-  destruct (search_contract c keys ix q Hc Hf Hd Hb Hs Hq) as (a & Es & H1 & H2 & H3 & _).
+  destruct (search_contract_valid c keys ix q Hc Hf Hd Hb Hs Hq) as (a & Es & H1 & H2 & H3 & _).
   exists (a_lo a), (a_hi a). cbn [pg_search idx_ops]. rewrite Es. cbn [bind].
   split; [reflexivity|]. repeat split; try tauto; lia.
 Qed.
@@ -67,7 +67,7 @@ Record idx_contract_on (c : cfg) : Prop := mkContractOn {
                 0 <= lo /\ lo <= lb keys q /\ lb keys q <= hi /\ hi <= zlen keys /\ (In q keys -> lb keys q < hi)
 }.
 
-Theorem idx_ops_contract_on c : idx_ok c -> float_ok_all c -> build_ok c -> idx_contract_on c.
+Theorem idx_ops_contract_on c : idx_ok c -> float_ok_valid c -> build_ok c -> idx_contract_on c.
 Proof.
   intros Hc Hf Hbo. constructor.
   - intros keys Hne Hs Hk Hg. destruct (Hbo keys (good_data_ok c keys Hne Hs Hk Hg) (proj2 (goodb_spec c keys Hg))) as (ix & Hb & _).
@@ -108,7 +108,7 @@ Proof. intros H. cbn [pg_build gops idx_ops]. rewrite H. reflexivity. Qed.
 Lemma build_real c keys p : build c keys = Ok p -> real p.
 Proof. intros H. unfold real. rewrite (build_ix_n c keys p H). pose proof (zlen_ge0 keys). lia. Qed.
 
-Theorem gops_contract c : idx_ok c -> float_ok_all c -> build_ok c -> pgm_contract (gops c) (sentinel c).
+Theorem gops_contract c : idx_ok c -> float_ok_valid c -> build_ok c -> pgm_contract (gops c) (sentinel c).
 Proof.
   intros Hc Hf Hbo. destruct (idx_ops_contract_on c Hc Hf Hbo) as [Hb Hs]. constructor.
   - intros keys Hne Hss Hk. cbn [pg_build gops]. destruct (goodb c keys) eqn:Hg.
@@ -413,7 +413,7 @@ Proof. exact (C15_hist (idx_ops c) (sentinel c) (idx_ops_build_nil c) d m). Qed.
 Section DynIdx.
   Variable c : cfg.
   Hypothesis Hc : idx_ok c.
-  Hypothesis Hf : float_ok_all c.
+  Hypothesis Hf : float_ok_valid c.
   Hypothesis Hsm : cfg_small c.
   Variables (d : @dyn index) (m : amap).
   Hypothesis Hh : ihist c d m.
